@@ -61,7 +61,25 @@ pub fn wire_name(f: &syn::Field) -> String {
         if a.path().is_ident("serde") {
             let mut found = None;
             let _ = a.parse_nested_meta(|m| {
-                if m.path.is_ident("rename") {
+                if m.path.is_ident("rename") && m.input.peek(syn::token::Paren) {
+                    // the explicit form `rename(serialize = "a", deserialize = "b")`
+                    let (mut ser, mut de): (Option<String>, Option<String>) = (None, None);
+                    m.parse_nested_meta(|n| {
+                        let v: syn::LitStr = n.value()?.parse()?;
+                        if n.path.is_ident("serialize") {
+                            ser = Some(v.value());
+                        } else if n.path.is_ident("deserialize") {
+                            de = Some(v.value());
+                        }
+                        Ok(())
+                    })?;
+                    found = match (ser, de) {
+                        (Some(a), Some(b)) if a == b => Some(a),
+                        (Some(a), None) | (None, Some(a)) => Some(a),
+                        (Some(a), Some(b)) => Some(format!("{} (serialize) / {} (deserialize)", a, b)),
+                        (None, None) => None,
+                    };
+                } else if m.path.is_ident("rename") {
                     let v: syn::LitStr = m.value()?.parse()?;
                     found = Some(v.value());
                 } else if m.input.peek(syn::Token![=]) {
